@@ -73,6 +73,9 @@ def main():
         meta["patch_applies"] = rc == 0
         if rc != 0:
             meta["error"] = out[-800:]
+            # one line first, so that a matrix over many seeds shows it (five seeds
+            # sat unnoticed for hours after a fix in /repo moved the lines they touch)
+            print("%s: valid=False  PATCH-DOES-NOT-APPLY (rebase it onto /repo's HEAD)" % name)
             print(json.dumps(meta, indent=1))
             return 1
         rc, out = sh("go build ./...", scratch)
